@@ -367,6 +367,9 @@ def main(argv=None):
         os.makedirs(evdir, exist_ok=True)
         with open(os.path.join(evdir, f"{prop}.json"), "w") as f:
             json.dump(ev, f, indent=1, default=str)
+    if args.jobs or os.environ.get("SYMX_TIMES"):
+        for pj in sorted(per_job, key=lambda j: -j["wall_s"])[:6]:
+            print(f"  slow: {pj['job']} wall={pj['wall_s']} paths={pj['paths']} solver={pj['solver_s']}")
     print(f"{prop} tier={args.tier} jobs={len(jobs)} paths={total.paths} queries={total.queries} "
           f"proved={total.proved} unknown={total.unknown} validated={validated} "
           f"disagree={len(disagreements)} solver_s={total.solver_s:.1f} wall_s={wall} -> exit {status}")
